@@ -147,6 +147,33 @@ def main():
                         pa.Index(int).validate,
                         pd.DataFrame({"a": [1]}, index=["x"])))
     out["probes"] = probes
+    # ---- the same probes inside a user config_context: the override is the
+    # configuration in force, whatever the environment says
+    ctx_probes = []
+    overrides = [{"validation_depth": d} for d in c.ValidationDepth] + \
+        [{"validation_enabled": False}, {"validation_enabled": True}]
+    for kw in overrides:
+        label = ",".join(f"{k}={getattr(v, 'name', v)}" for k, v in kw.items())
+        with c.config_context(**kw):
+            for tag, vals in frames.items():
+                for name, fn, mk in (
+                    ("pandas.DataFrameSchema", pd_s.validate,
+                     lambda v: pd.DataFrame({"a": v})),
+                    ("pandas.SeriesSchema", ser_s.validate,
+                     lambda v: pd.Series(v, name="a")),
+                    ("polars.DataFrameSchema/DataFrame", pl_s.validate,
+                     lambda v: pl.DataFrame({"a": v})),
+                    ("polars.DataFrameSchema/LazyFrame", pl_s.validate,
+                     lambda v: pl.LazyFrame({"a": v})),
+                    ("polars.DataFrameModel/LazyFrame", PlModel.validate,
+                     lambda v: pl.LazyFrame({"a": v})),
+                ):
+                    rec = probe(f"{name}/{tag}", fn, mk(vals))
+                    rec["override"] = {k: getattr(v, "name", v)
+                                       for k, v in kw.items()}
+                    rec["label"] = label
+                    ctx_probes.append(rec)
+    out["ctx_probes"] = ctx_probes
     out["context_after_probes"] = read(
         c.get_config_context(validation_depth_default=None))
     print(json.dumps(out))
